@@ -258,6 +258,9 @@ for _r in (0, 3, 7, 8, 16):
 h("kd11_bound_counts_every_gzip_header_field", D + "/kd10_entry.rs", "deflate::verif_kani::kd10_entry", ["C07", "C20"], kernel="KD11", expect_s=60, timeout=900,
   functions=["deflate::bound (gzip wrapper length)"],
   bounds="gzip stream, any level, source length <= 2^30, every subset of {extra (6 bytes), name (2 chars), comment (4 chars), hcrc of any non-zero value}; compared with the bound of the same stream without a header")
+h("kd11_bound_counts_the_dictionary_id", D + "/kd10_entry.rs", "deflate::verif_kani::kd10_entry", ["C07", "C13"], kernel="KD11", expect_s=60, timeout=900,
+  functions=["deflate::bound (zlib wrapper length)", "State::header (FDICT flag)"],
+  bounds="zlib stream before its header is written, any level, source length <= 2^30, every (strstart, lookahead <= 2) deflateSetDictionary can leave behind in the reduced window; compared with the bound of the same stream without a dictionary and with the FDICT flag State::header computes")
 # ---------------------------------------------------------------- deflate: KD4/KD5 dynamic trees at reduced alphabets
 TR = D + "/kd4_trees.rs"
 TRP = "deflate::verif_kani::kd4_trees"
@@ -356,6 +359,18 @@ h("kd6_stored_resume", D + "/kd6_stored.rs", "deflate::verif_kani::kd6_stored", 
   bounds="as kd6_stored_one_call, but from the state an earlier Z_NO_FLUSH call leaves behind: 0..=3 symbolic bytes buffered in the window; "
          "0..=3 new input bytes, output space 1..=18, flush in {NoFlush, SyncFlush, FullFlush, Finish}",
   assumptions=["reduced w_size/pending", "raw wrapper"])
+h("kd6_stored_flush_tail_k3", D + "/kd6_stored.rs", "deflate::verif_kani::kd6_stored", ["C11", "C06"],
+  kernel="KD6", expect_s=200, timeout=1800, weight=2, mem_gb=20,
+  functions=["algorithm::stored::deflate_stored (flush with buffered input)", "zng_tr_stored_block", "flush_pending"],
+  bounds="typed level-0 state, w_size 16, pending 64 B; 3 symbolic bytes buffered by an earlier Z_NO_FLUSH call, no new input, output space 0..=12, "
+         "flush in {SyncFlush, FullFlush}; BlockDone only with nothing left in the window or pending, and the block bytes compared with RFC 1951 3.2.4",
+  assumptions=["reduced w_size/pending", "raw wrapper"])
+h("kd6_stored_window_holds_the_latest_input", D + "/kd6_stored.rs", "deflate::verif_kani::kd6_stored", ["C01", "C13"],
+  kernel="KD6", expect_s=400, timeout=2400, weight=3, mem_gb=24,
+  functions=["algorithm::stored::deflate_stored (window update after direct copies, used >= w_size and used < w_size)", "read_buf_direct_copy", "read_buf_window", "Window::copy_and_initialize"],
+  bounds="typed level-0 state, w_size 16 (window 32 B); one call with 18 symbolic input bytes, output space 21..=24 (a direct block of 16, 17 or 18 bytes, the rest buffered), "
+         "flush in {NoFlush, SyncFlush}; every one of the last 16 bytes taken in is compared with the window below strstart",
+  assumptions=["reduced w_size/pending", "raw wrapper", "empty window before the call"])
 h("kd6_stored_tiny_pending", D + "/kd6_stored.rs", "deflate::verif_kani::kd6_stored", ["C01", "C05", "C06"],
   kernel="KD6", tier="thorough", expect_s=500, timeout=3000, weight=3, mem_gb=24,
   functions=["algorithm::stored::deflate_stored", "zng_tr_stored_block", "flush_pending"],
@@ -712,7 +727,7 @@ h("ka2_inflate_end_releases_once", I + "/ki8_entry.rs", "inflate::verif_kani::ki
 # =================================================================================================================
 # measured peak RSS (GB, rounded up) of the heavier harnesses' CBMC process, used by the scheduler's memory-aware admission
 # (lib/runner.py); harnesses without an entry are estimated at a third of their cap.  Values come from evidence/*.json.
-RSS_MEASURED = {"kb1_back_lit1_d16": 6, "kb1_back_lit1_d29": 9, "kb1_back_lit1_d4": 6, "kb1_back_lit9_d5": 11, "kd10_reset_equals_fresh": 9,
+RSS_MEASURED = {"kd6_stored_window_holds_the_latest_input": 12, "kb1_back_lit1_d16": 6, "kb1_back_lit1_d29": 9, "kb1_back_lit1_d4": 6, "kb1_back_lit9_d5": 11, "kd10_reset_equals_fresh": 9,
                 "kd4_build_tree_bl_single": 6, "kd6_stored_one_call": 19, "kd6_stored_resume": 16, "kd6_stored_tiny_pending": 16, "kd7_gzip_header_none_s1": 17,
                 "kd7_gzip_start_stale_gzindex": 10, "kd7_zlib_starved_finish": 16, "kd7_zlib_wrapper": 10, "kd8_quick_sync_n3": 10, "kd8_quick_finish_n5": 12,
                 "ki2_copy_match_twin_small": 10, "ki2_extend_from_window_twin": 9, "ki5a_head_w3_n2": 12, "ki5a_head_w7_n2": 16,
@@ -740,7 +755,7 @@ QUICK = {
             "kd10_set_dictionary_protocol"],
     "C06": ["kd10_params_leaving_level0_settles_the_hash_debt", "kd10_prime_room0", "kd10_prime_room7", "kd10_prime_room8", "kd7_refused_call_without_space_is_harmless", "kd7_starved_flush_is_completed_by_the_next_call", "kd7_zlib_wrapper", "kd7_zlib_starved_finish", "kd10_prime", "kd10_params_tune", "kd10_set_header",
             "kd8_quick_finish_n1", "ka1_alloc_overflow_and_null"],
-    "C07": ["kd11_bound_counts_every_gzip_header_field", "kd8_quick_finish_n1", "kd8_quick_finish_n3", "kd7_gzip_header_none_s1"],  # kd6_stored_one_call (580 s, 18 GB): thorough tier
+    "C07": ["kd11_bound_counts_every_gzip_header_field", "kd11_bound_counts_the_dictionary_id", "kd8_quick_finish_n1", "kd8_quick_finish_n3", "kd7_gzip_header_none_s1"],  # kd6_stored_one_call (580 s, 18 GB): thorough tier
     "C08": ["ki3_window_extend_checksum_order", "ki5e_check_zlib", "ki5e_check_gzip", "ki5e_length_gzip", "ki5b_hcrc", "ki5b_fixed_part", "ki5b_name",
             "ki7_inflate_copyblock", "kc9_adler_len_0_1_2_3"],
     "C09": ["kc9_crc32_dispatch_passes_the_start_value", "kc9_adler_tail_reduces_any_sum", "kc9_crc_tables", "kc9_crc_braid_table", "kc9_crc_naive_step", "kc9_crc_braid_short",
